@@ -495,7 +495,9 @@ package vegeta
 //@   before call Unlock: assert [C05-seq-and-timestamp-from-one-section] sections == 0 && res.Seq == seqAtLock && atk.seq == seqAtLock + 1 ;
 //@        assert [C05-timestamp-not-before-previous-hit] res.Timestamp >= lastTsAtLock ;
 //@        assert [C05-monitor-invariant-reestablished] res.Timestamp <= clock(0) ;
-//@        ghost sections = sections + 1
+//@        ghost sections = sections + 1 ; ghost tsAtUnlock = res.Timestamp
+//@   ghost tsAtUnlock int
+//@   ensures [C05-timestamp-is-the-one-taken-with-the-sequence-number] result.Timestamp == tsAtUnlock
 //@   at call tr: ghost targeterFailed = (result != nil)
 //@   at call Stop: ghost stopped = true
 //@   at call Set: assert [C06-attack-name-header] arg1 == "X-Vegeta-Attack" ==> arg2 == atk.name && atk.name != "" ;
@@ -665,7 +667,7 @@ package vegeta
 // HTTP targeter: the whole decode is one critical section under mu; it writes only *tgt, the
 // scanner state and fresh memory (frame): neither the defaults nor any target returned earlier.
 //@ func NewHTTPTargeter$1
-//@   property C14 C15 C16
+//@   property C14 C15 C16 C02
 //@   returns (err)
 //@   guarded peekingScanner by &mu
 //@   guarded bufio.Scanner by &mu
